@@ -764,7 +764,8 @@ class StateEngine(object):
         state we should hopefully be able to avoid the following condition upon
         StateEngine restart.
         """
-        if self.executions.get(execution_arn) == None:
+        # N.B. the Redis backed stores return an empty view for an absent key.
+        if not self.executions.get(execution_arn):
             self.logger.warning(
                 "StateEngine: Execution {} does not "
                 "exist, probably due to StateEngine restart. Some history "
